@@ -580,7 +580,29 @@ fn gen_case(rng: &mut Rng, index: u64) -> String {
     match rng.below(20) {
         0..=6 => {
             let ps = stitch_polys(rng);
-            let ts = scramble_triangles(rng, &ps);
+            let mut ts = scramble_triangles(rng, &ps);
+            // 1 case in 7 violates the documented precondition (the function must still be a function)
+            if !ts.is_empty() && rng.chance(1, 7) {
+                let i = rng.below(ts.len() as u64) as usize;
+                let t = ts[i];
+                match rng.below(4) {
+                    0 => ts.push(t), // the same triangle twice: all three edges cancel
+                    1 => {
+                        ts.remove(i); // a missing triangle: a triangular hole or notch
+                    }
+                    2 => {
+                        // a second triangle on the same side of the edge t.0–t.1: the shared edge is
+                        // cancelled although it is not interior, the rest cannot be chained => Err
+                        let d = Coord { x: (t.0.x + t.1.x + 2.0 * t.2.x) / 4.0, y: (t.0.y + t.1.y + 2.0 * t.2.y) / 4.0 };
+                        ts.push(Triangle(t.0, t.1, d));
+                    }
+                    _ => {
+                        // degenerate (collinear) triangle: no winding order => treated as clockwise
+                        let m = Coord { x: (t.0.x + t.1.x) / 2.0, y: (t.0.y + t.1.y) / 2.0 };
+                        ts.push(Triangle(t.0, m, t.1));
+                    }
+                }
+            }
             format!("C20.stitch {}", tris_out(&ts))
         }
         7 | 8 => {
